@@ -201,7 +201,9 @@ def build_jobs(tier, rnd):
     jobs = []
     # the last pair: both calls deep in nested link labels (12 + 10 levels against maxNesting = 20 of commonmark):
     # per-call budgets (nesting, recursion) must not be shared between overlapping calls
-    deep = (("render", "[[[[[[[[[[[[a]]]]]]]]]]]](/a) *[x](/y)*\n"), ("render", "[[[[[[[[[[b]]]]]]]]]](/b)\n"))
+    # ... and both deep in block containers (12 + 11 quotes / list items against the same limit)
+    deep = (("render", "> " * 6 + "- " * 3 + "[[[[[[[[[[[[a]]]]]]]]]]]](/a) *[x](/y)*\n"),
+            ("render", "> " * 11 + "[[[[[[[[[[b]]]]]]]]]](/b)\n"))
     pairs = [(DOCS[0], DOCS[1]), (DOCS[1], DOCS[0]), (DOCS[2], DOCS[1]), deep, (DOCS[3], DOCS[1]), (DOCS[1], DOCS[3])]
     cfgs = CONFIGS if tier == "thorough" else ["commonmark", "js-default", "reconfigured"]
     info = {"ruler_points": 0, "other_points": 0}
